@@ -79,6 +79,14 @@ def span_excluded(sp):
     return bool(sp.get("mac") or sp.get("astpass")) or is_log_span(sp)
 
 
+ERR_PRESERVING = {
+    "core::result::Result::<core::option::Option<T>, E>::transpose", "core::option::Option::<core::result::Result<T, E>>::transpose",
+    "core::result::Result::<T, E>::map_err", "core::result::Result::<T, E>::map", "core::result::Result::<T, E>::and_then",
+    "core::result::Result::<T, E>::inspect_err", "core::result::Result::<T, E>::inspect", "core::convert::Into::into",
+    "core::convert::From::from",
+}
+
+
 def ret_locals(fn):
     """Locals whose value flows into _0: by plain moves, wrapped in Some(..), or -- as the error -- through the
     `?` desugaring (Try::branch -> Break payload -> from_residual), which is how an Err built in an inlined
@@ -99,6 +107,9 @@ def ret_locals(fn):
                 n = site.node
                 o = callee_orig(n)
                 if o in (FROM_RESIDUAL, TRY_BRANCH) and n["args"]:
+                    add(op_local(n["args"][0]))
+                elif o in ERR_PRESERVING and n["args"]:
+                    # `x.transpose()`, `x.map_err(f)` (not expanded: f is not a closure) ...: an Err stays an Err
                     add(op_local(n["args"][0]))
                 continue
             rv = site.node["rv"]
